@@ -49,3 +49,13 @@ Theorem C09_shared_mutable_state_known :
   guarded_fields = [("x/evm/keeper", "NibiruBankKeeper", "StateDB", "*statedb.StateDB")]%string.
 Proof. repeat split; vm_compute; reflexivity. Qed.
 Print Assumptions C09_shared_mutable_state_known.
+
+(** No request (or anything else in x/evm, app/evmante, eth) can change a number somebody else still holds:
+    every receiver-overwriting big-number operation `x.Op(x, …)` / `x.SetXxx(…)` whose receiver is not a freshly
+    allocated value, and every function that returns a package-level variable of x/evm itself instead of a copy,
+    is one of the reviewed sites of Sites.v.  A new one (e.g. `baseFeeWei.Add(baseFeeWei, tip)` on a parameter, or
+    `return evm.BASE_FEE_WEI`) breaks this obligation. *)
+Theorem C09_no_unreviewed_aliasing :
+  forallb inplace_known inplace_sites = true /\ forallb alias_known var_aliases = true.
+Proof. split; vm_compute; reflexivity. Qed.
+Print Assumptions C09_no_unreviewed_aliasing.
